@@ -223,6 +223,12 @@ func installWatchHook() {
 				return
 			}
 			recordHook(point, a)
+			if point == "refresh.done" {
+				// pacing 3: file-system operations performed inside NewCache/Configure, right after its scan
+				if f, ok := confOps.LoadAndDelete(goid()); ok {
+					f.(func())()
+				}
+			}
 			var key interface{} = a[0]
 			if c, ok := a[0].(*cdi.Cache); ok {
 				key = &c.Mutex
@@ -569,7 +575,38 @@ func runAutoOnce(row *autoRow, pacing int, r *rand.Rand, bad bool, rec *autoReco
 	auto := true
 	// the recorder has to be in place before the cache starts its watcher goroutine: NewCache is
 	// split into a manual-mode creation and a Configure that switches auto-refresh on
+	// pacing 3: the file-system operations that directly follow the creation or a Configure in the behaviour are
+	// performed inside that call, after its scan and before it returns (refresh.done hook in the calling goroutine)
+	skip := 0
+	var inErr error
+	inside := func(from int) {
+		if pacing != 3 {
+			return
+		}
+		var ops []autoAct
+		for _, a := range row.Hist[from:] {
+			if !isFsOp(a.A) || len(ops) == 2 {
+				break
+			}
+			ops = append(ops, a)
+		}
+		if len(ops) == 0 {
+			return
+		}
+		skip = len(ops)
+		confOps.Store(goid(), func() {
+			for _, a := range ops {
+				if err := w.do(a); err != nil && inErr == nil {
+					inErr = fmt.Errorf("file-system operation %s(%s,%s): %w", a.A, a.D, a.N, err)
+				}
+			}
+		})
+	}
+	inside(1)
 	cache, _ := cdi.NewCache(cdi.WithSpecDirs(w.paths(dirs)...), cdi.WithAutoRefresh(rec == nil))
+	if _, left := confOps.LoadAndDelete(goid()); left {
+		skip = 0 // the hook did not fire: the operations are still to be done
+	}
 	g := &gate{tokens: make(chan struct{}), inner: make(chan struct{}), tail: make(chan struct{})}
 	gates.Store(&cache.Mutex, g)
 	if rec != nil {
@@ -593,14 +630,21 @@ func runAutoOnce(row *autoRow, pacing int, r *rand.Rand, bad bool, rec *autoReco
 		recorders.Delete(&cache.Mutex)
 		recCaches.Delete(&cache.Mutex)
 	}()
-	if pacing != 0 {
+	if pacing == 1 || pacing == 2 {
 		atomic.StoreInt32(&g.closed, 1)
 	}
 	nq := 0
 	lastQuery := false
 	cs := "" // where the watcher goroutine is parked inside its critical section: "", "inner", "tail"
 	defer func() { g.leave(cs) }()
-	for _, a := range row.Hist[1:] {
+	for hi, a := range row.Hist[1:] {
+		if skip > 0 && isFsOp(a.A) {
+			skip--
+			continue
+		}
+		if inErr != nil {
+			return "", autoView{}, autoView{}, inErr
+		}
 		if cs == "" {
 			g.drain()
 		}
@@ -647,8 +691,12 @@ func runAutoOnce(row *autoRow, pacing int, r *rand.Rand, bad bool, rec *autoReco
 				time.Sleep(2 * time.Millisecond)
 			}
 			dirs, auto = append([]string(nil), a.Nd...), a.Na
+			inside(hi + 2)
 			if err := cache.Configure(cdi.WithSpecDirs(w.paths(dirs)...), cdi.WithAutoRefresh(auto)); err != nil {
 				return "configure failed: " + err.Error(), autoView{}, autoView{}, nil
+			}
+			if _, left := confOps.LoadAndDelete(goid()); left {
+				skip = 0
 			}
 		case "shortage":
 		default:
@@ -674,7 +722,7 @@ func runAutoOnce(row *autoRow, pacing int, r *rand.Rand, bad bool, rec *autoReco
 			if err != nil {
 				return "", autoView{}, autoView{}, fmt.Errorf("file-system operation %s(%s,%s): %w", a.A, a.D, a.N, err)
 			}
-			if pacing == 0 {
+			if pacing == 0 || pacing == 3 {
 				time.Sleep(time.Duration(r.Intn(1500)) * time.Microsecond)
 			}
 		}
@@ -733,6 +781,8 @@ func runAutoOnce(row *autoRow, pacing int, r *rand.Rand, bad bool, rec *autoReco
 
 var traceDir string
 
+var confOps sync.Map // goroutine id -> func(): what to do at the end of the scan of the Configure/NewCache running in that goroutine
+
 func replayAutoRow(idx int, line []byte, seed int64, col *collector, pacings []int) {
 	var row autoRow
 	if err := json.Unmarshal(line, &row); err != nil || len(row.Hist) == 0 {
@@ -759,7 +809,7 @@ func replayAutoRow(idx int, line []byte, seed int64, col *collector, pacings []i
 			var why string
 			var err error
 			var rec *autoRecorder
-			if traceDir != "" && at == 0 && pacing != 2 {
+			if traceDir != "" && at == 0 && pacing != 2 && pacing != 3 {
 				rec = &autoRecorder{}
 			}
 			pan, stack, hung := guarded(60*time.Second, func() { why, got, want, err = runAutoOnce(&row, pacing, r, idx%2 == 1, rec) })
@@ -805,7 +855,7 @@ func replayAutoRow(idx int, line []byte, seed int64, col *collector, pacings []i
 				p2 = append(append([]string{}, props...), "C13")
 			}
 			col.add(Mismatch{Case: idx, Step: pacing, Props: p2, What: "no-convergence", Want: want, Got: got,
-				Note: fmt.Sprintf("pacing %d (0 free-running, 1 recorded schedule, 2 watcher held until the end), missing directories are %s: %s; failed in %d fresh executions",
+				Note: fmt.Sprintf("pacing %d (0 free-running, 1 recorded schedule, 2 watcher held until the end, 3 operations inside NewCache/Configure after its scan), missing directories are %s: %s; failed in %d fresh executions",
 					pacing, map[bool]string{false: "absent", true: "below a regular file"}[idx%2 == 1], fails[0], attempts),
 				Row: json.RawMessage(line)})
 		} else if len(fails) > 0 {
@@ -819,7 +869,7 @@ func replayAutoMain(args []string) int {
 	fs := flag.NewFlagSet("replay-auto", flag.ExitOnError)
 	var cf commonFlags
 	addCommon(fs, &cf)
-	pac := fs.String("pacings", "0,1,2", "pacings to run")
+	pac := fs.String("pacings", "0,1,2,3", "pacings to run")
 	fs.StringVar(&traceDir, "trace-dir", "", "record the first execution of pacings 0 and 1 as traces for spec/CacheAutoTrace.tla")
 	_ = fs.Parse(args)
 	installWatchHook()
